@@ -2,6 +2,9 @@
 package main
 
 import (
+	"strconv"
+	"strings"
+
 	"verifharness/hxlib"
 )
 
@@ -98,6 +101,43 @@ func scenarios(r *hxlib.Run) []scn {
 		add(scn{Writer: "fetch", Old: old, OldLen: small(), NewLen: 100000 + small(), Fail: "short"})
 		add(scn{Writer: "fetch", Old: old, OldLen: small(), NewLen: small(), Fail: "404"})
 	}
+	// the server / the connection misbehaves (download.go): every way the body can end early or the answer can be
+	// something else than a complete, announced 200 response — one attempt each
+	dlSize := func() int { return []int{2 + r.Rng.Intn(6000), boundary() + 1, 60000 + r.Rng.Intn(200000)}[r.Rng.Intn(3)] }
+	single := []string{"len-cut@half", "len-cut@0", "len-cut@last", "len-rst@0", "len-short", "len-long",
+		"close-full", "close-cut@0", "close-cut@1", "close-cut@half", "close-cut@last", "close-rst@half", "http10-cut@half",
+		"chunked-full", "chunked-term@half", "chunked-cut@half", "chunked-rst@half", "gzip-full", "gzip-cut",
+		"st206", "st301", "st302-ok", "st204", "st304", "st500", "st503", "refused"}
+	for i, plan := range single {
+		old := []string{"file", "absent"}[(i+int(r.Seed))%2]
+		add(scn{Writer: "fetch", Old: old, OldLen: small(), NewLen: dlSize(), Srv: plan})
+	}
+	add(scn{Writer: "fetch", Old: "file", OldLen: small(), NewLen: multi(), Srv: "close-cut@102400"})
+	add(scn{Writer: "fetch", Old: "absent", NewLen: multi(), Srv: "chunked-cut@half"})
+	add(scn{Writer: "fetch", Old: "file", OldLen: small(), NewLen: 0, Srv: "close-full"})
+	// retries: a failed attempt, the back-off, then a complete answer — through DownloadUpdates and through GetFile
+	add(scn{Writer: "fetch", Old: "file", OldLen: small(), NewLen: dlSize(), Srv: "close-cut@half+ok"})
+	add(scn{Writer: "fetch", Old: "absent", NewLen: dlSize(), Srv: "close-cut@half+ok", Var: "getfile"})
+	add(scn{Writer: "fetch", Old: "file", OldLen: small(), NewLen: dlSize(), Srv: []string{"len-rst@half+ok", "st503+ok", "chunked-cut@half+ok", "len-long+ok"}[r.Rng.Intn(4)], Var: "getfile"})
+	add(scn{Writer: "fetch", Old: "file", OldLen: small(), NewLen: dlSize(), Srv: "ok", Var: "getfile"})
+	if r.Thorough {
+		add(scn{Writer: "fetch", Old: "file", OldLen: small(), NewLen: dlSize(), Srv: "http10-cut@half+close-cut@1"})
+		for _, plan := range single {
+			add(scn{Writer: "fetch", Old: "file", OldLen: small(), NewLen: dlSize(), Srv: plan})
+			add(scn{Writer: "fetch", Old: "absent", NewLen: dlSize(), Srv: plan})
+		}
+		add(scn{Writer: "fetch", Old: "absent", NewLen: dlSize(), Srv: "st500+len-cut@half+ok", Var: "getfile"})
+		add(scn{Writer: "fetch", Old: "file", OldLen: small(), NewLen: dlSize(), Srv: "close-cut@half+close-cut@half+ok"})
+		add(scn{Writer: "fetch", Old: "file", OldLen: small(), NewLen: 1 << 20, Srv: "close-cut@102400+ok", Var: "getfile"})
+	}
+	// verification: truncated body under a required signature, delivered bytes that do not match the signature
+	// (required / only warned about), unusable signature (required), no signature (warn)
+	add(scn{Writer: "fetch", Old: "file", OldLen: small(), NewLen: dlSize(), Var: "signed-main", Srv: "close-cut@half"})
+	add(scn{Writer: "fetch", Old: "absent", NewLen: dlSize(), Var: "signed-main", Srv: "len-cut@half+ok"})
+	add(scn{Writer: "fetch", Old: "file", OldLen: small(), NewLen: dlSize(), Var: "signed-tamper-require"})
+	add(scn{Writer: "fetch", Old: "file", OldLen: small(), NewLen: dlSize(), Var: "signed-tamper-warn"})
+	add(scn{Writer: "fetch", Old: "file", OldLen: small(), NewLen: dlSize(), Var: "signed-badsig-require"})
+	add(scn{Writer: "fetch", Old: "absent", NewLen: dlSize(), Var: "signed-nosig-warn"})
 	// signed downloads: the resource and its signature file are two published files; each is the destination of
 	// one scenario (the other one is named in also=)
 	for _, v := range []string{"signed-main", "signed-sig"} {
@@ -116,6 +156,12 @@ func scenarios(r *hxlib.Run) []scn {
 	add(scn{Writer: "unpack-zip", Old: "absent", NewLen: multi()})
 	add(scn{Writer: "unpack-zip", Old: "dir", NewLen: small()})
 	add(scn{Writer: "unpack-zip", Old: "file", NewLen: small(), Fail: "blocked"})
+	// the size limit of copyFromZipArchive: a member just above MaxUnpackSize and one exactly at it (untraced runs)
+	add(scn{Writer: "unpack-zip-big", Old: "absent", Var: "above-limit"})
+	add(scn{Writer: "unpack-zip-big", Old: "absent", Var: "at-limit"})
+	if r.Thorough {
+		add(scn{Writer: "unpack-zip-big", Old: "absent", Var: "below-limit"})
+	}
 	// File.Unpack (gzip)
 	for _, old := range []string{"absent", "file"} {
 		for _, n := range sizes() {
@@ -123,6 +169,16 @@ func scenarios(r *hxlib.Run) []scn {
 		}
 		add(scn{Writer: "file-unpack", Old: old, OldLen: small(), NewLen: 50000 + small(), Fail: "corrupt"})
 	}
+	// … and the other ways a gzip file can be bad: error in the middle of the data, the file itself cut (in the
+	// data / in the trailer), garbage after the stream, not a gzip file at all
+	for _, f := range []string{"corrupt-data", "truncated", "truncated-trailer", "trailing", "badheader"} {
+		add(scn{Writer: "file-unpack", Old: "absent", NewLen: []int{20 + small(), 50000 + small()}[r.Rng.Intn(2)], Fail: f})
+	}
+	add(scn{Writer: "file-unpack", Old: "file", OldLen: small(), NewLen: 20 + small(), Fail: "badheader"})
+	// zip: a member that is shorter than its header says (last / first member), an archive file cut in the middle
+	add(scn{Writer: "unpack-zip", Old: "absent", NewLen: 2 + small(), Fail: "short-member"})
+	add(scn{Writer: "unpack-zip", Old: "absent", NewLen: 70000 + small(), Fail: "short-member-first", Var: "deep"})
+	add(scn{Writer: "unpack-zip", Old: "absent", NewLen: small(), Fail: "truncated-zip"})
 	// history: every writer once more on a sandbox in which the same operation was interrupted before
 	for _, w := range []string{"rio-writefile", "rio-symlink", "create-atomic", "copy-atomic", "fstree-put", "fetch", "unpack-zip", "file-unpack"} {
 		old := "file"
@@ -138,6 +194,7 @@ func scenarios(r *hxlib.Run) []scn {
 		}
 		add(scn{Writer: w, Old: old, OldLen: small(), NewLen: boundary(), Var: v, Pre: 3 + r.Rng.Intn(8)})
 	}
+	add(scn{Writer: "fetch", Old: "file", OldLen: small(), NewLen: 3 + boundary(), Srv: "close-cut@half", Pre: 2 + r.Rng.Intn(6)})
 	// seeded random scenarios
 	writers := []string{"rio-writefile", "rio-symlink", "create-atomic", "copy-atomic", "replace-atomic", "fstree-put", "fetch", "unpack-zip", "file-unpack"}
 	for i := 0; i < r.Budget(24, 400); i++ {
@@ -190,28 +247,57 @@ func scenarios(r *hxlib.Run) []scn {
 			if s.Fail == "short" && s.NewLen < 10 {
 				s.NewLen = 5000
 			}
-			switch r.Rng.Intn(5) {
+			switch r.Rng.Intn(6) {
 			case 0:
 				s.Var = "signed-main"
 			case 1:
 				s.Var, s.Old = "signed-sig", "absent"
 			case 2:
 				s.Var, s.Old, s.Fail = "missing-sig", "absent", "-"
+			case 3:
+				s.Var, s.Fail = []string{"signed-tamper-require", "signed-tamper-warn", "signed-badsig-require", "signed-nosig-warn"}[r.Rng.Intn(4)], "-"
+				if s.NewLen < 2 {
+					s.NewLen = 2 + r.Rng.Intn(5000)
+				}
+			}
+			if (s.Var == "" || s.Var == "signed-main") && s.Fail == "-" && r.Rng.Intn(3) > 0 {
+				// a random misbehaviour of the server, cut at a random position
+				if s.NewLen < 2 {
+					s.NewLen = 2 + r.Rng.Intn(5000)
+				}
+				plan := single[r.Rng.Intn(len(single))]
+				if i := strings.IndexByte(plan, '@'); i >= 0 {
+					pos := []string{"0", "1", "half", "last", strconv.Itoa(r.Rng.Intn(s.NewLen))}[r.Rng.Intn(5)]
+					plan = plan[:i+1] + pos
+				}
+				if r.Rng.Intn(4) == 0 && plan != "st302-ok" && plan != "len-short" {
+					plan += "+ok"
+					if s.Var == "" && r.Rng.Intn(2) == 0 {
+						s.Var = "getfile"
+					}
+				}
+				s.Srv = plan
 			}
 		case "unpack-zip":
 			s.TmpMode = "same"
 			s.Old = []string{"absent", "absent", "absent", "dir"}[r.Rng.Intn(4)]
 			s.Var = []string{"-", "deep"}[r.Rng.Intn(2)]
-			if r.Rng.Intn(4) == 0 {
-				s.Fail = "corrupt"
+			if r.Rng.Intn(3) == 0 {
+				s.Fail = []string{"corrupt", "short-member", "short-member-first", "truncated-zip"}[r.Rng.Intn(4)]
+				if s.NewLen < 2 {
+					s.NewLen = 2 + r.Rng.Intn(5000)
+				}
+				if s.Old == "dir" {
+					s.Fail = ""
+				}
 			}
 		case "file-unpack":
 			s.TmpMode = "same"
 			if s.Old == "file400" {
 				s.Old = "file"
 			}
-			if r.Rng.Intn(4) == 0 && s.NewLen > 100 {
-				s.Fail = "corrupt"
+			if r.Rng.Intn(3) == 0 && s.NewLen > 100 {
+				s.Fail = []string{"corrupt", "corrupt-data", "truncated", "truncated-trailer", "trailing", "badheader"}[r.Rng.Intn(6)]
 			}
 		}
 		add(s)
